@@ -440,6 +440,7 @@ func (fr *Frame) instr(in ssa.Instruction) bool {
 		l.local = !x.Heap
 		fr.lv[x] = l
 		fr.store(l, c.zero(el))
+		fr.freshSyncMaps(r, el)
 	case *ssa.FieldAddr:
 		base := fr.locOf(x.X)
 		fr.checkNonNil(x.X, x.Pos())
@@ -462,8 +463,7 @@ func (fr *Frame) instr(in ssa.Instruction) bool {
 		for _, ps := range l.path {
 			fp += "_" + fmt.Sprint(ps.i)
 		}
-		if !c.declared[fp] {
-			c.declared[fp] = true
+		{
 			var ss []string
 			for range l.idx {
 				ss = append(ss, "Ref")
@@ -471,7 +471,7 @@ func (fr *Frame) instr(in ssa.Instruction) bool {
 			if len(l.idx) == 2 {
 				ss[1] = "Int"
 			}
-			c.emit(fmt.Sprintf("(declare-fun %s (%s) Ref)", fp, strings.Join(ss, " ")))
+			c.fieldPtrFn(fp, ss)
 		}
 		fr.vals[x] = "(" + fp + " " + strings.Join(l.idx, " ") + ")"
 		c.assert("(not (= " + fr.vals[x] + " null))")
@@ -1069,18 +1069,7 @@ func (fr *Frame) pureTermRaw(in ssa.Instruction, get func(ssa.Value) Term) (Term
 			return a, true
 		}
 	case *ssa.MakeInterface:
-		key := typeKey(x.X.Type())
-		fn := "box_" + sanitize(key)
-		if len(fn) > 80 {
-			fn = fmt.Sprintf("box_t%d", c.typeTag(key))
-		}
-		s := c.sortOf(x.X.Type())
-		if !c.declared[fn] {
-			c.declared[fn] = true
-			c.emit(fmt.Sprintf("(declare-fun %s (%s) Iface)", fn, s))
-			c.emit(fmt.Sprintf("(declare-fun un%s (Iface) %s)", fn, s))
-			c.emit(fmt.Sprintf("(assert (forall ((v %s)) (! (= (un%s (%s v)) v) :pattern ((%s v)))))", s, fn, fn, fn))
-		}
+		fn := c.boxFn(x.X.Type())
 		return "(" + fn + " " + get(x.X) + ")", true
 	}
 	return "", false
@@ -1369,17 +1358,7 @@ func (fr *Frame) typeAssert(x *ssa.TypeAssert) {
 	} else {
 		key := typeKey(x.AssertedType)
 		okT = fmt.Sprintf("(= (dynType %s) %d)", v, c.typeTag(key))
-		fn := "box_" + sanitize(key)
-		if len(fn) > 80 {
-			fn = fmt.Sprintf("box_t%d", c.typeTag(key))
-		}
-		s := c.sortOf(x.AssertedType)
-		if !c.declared[fn] {
-			c.declared[fn] = true
-			c.emit(fmt.Sprintf("(declare-fun %s (%s) Iface)", fn, s))
-			c.emit(fmt.Sprintf("(declare-fun un%s (Iface) %s)", fn, s))
-			c.emit(fmt.Sprintf("(assert (forall ((v %s)) (! (= (un%s (%s v)) v) :pattern ((%s v)))))", s, fn, fn, fn))
-		}
+		fn := c.boxFn(x.AssertedType)
 		valT = "(un" + fn + " " + v + ")"
 	}
 	if x.CommaOk {
@@ -1525,4 +1504,28 @@ func (fr *Frame) autoFrameInvs(h *ssa.BasicBlock) []autoInv {
 		}})
 	}
 	return out
+}
+
+// freshSyncMaps: a sync.Map embedded in a freshly allocated struct is empty.
+func (fr *Frame) freshSyncMaps(ref Term, t types.Type) {
+	c := fr.c
+	st, ok := structOf(t)
+	if !ok {
+		return
+	}
+	g, ok := c.P.Specs.Ghosts["syncHas"]
+	if !ok {
+		return
+	}
+	for i := 0; i < st.NumFields(); i++ {
+		if typeKey(st.Field(i).Type()) != "sync.Map" {
+			continue
+		}
+		fp := c.fieldPtrFn("fp_"+sanitize(fieldComp(t, i))+"0", []string{"Ref"})
+		e := fr.env(fr.curBlock)
+		s, _, _ := e.ghostSort(g)
+		comp := c.comp(fr.st, ghostCompName(g), s)
+		c.assert("(forall ((k Iface)) (! (not (select (select " + comp + " (" + fp + " " + ref + ")) k)) :pattern ((select (select " + comp + " (" + fp + " " + ref + ")) k))))")
+		c.assumed["a sync.Map inside a freshly allocated struct is empty"] = true
+	}
 }
